@@ -6,6 +6,7 @@ import vcommon as V
 import gen_seq as G
 import fam_seq as S
 
+READY = True
 PROPS = {
  'C06': dict(level='model_checking', design='DESIGN.md 6 C06',
    text='Bucket.tla has a Crash action enabled in every state (plus torn prefixes of the data write in progress) followed by Recover(disk); TLC checks C06_Recovered exhaustively for small histories with flush, rotation, inline hint dump and shutdown steps. On the real code every fs mutation boundary of each scenario is snapshotted, torn variants of data appends (every 256-byte boundary + unaligned cuts) are synthesised, each snapshot is opened by a fresh child process, and TLC validates the served values against Allowed(k) computed from the record history and the independently scanned durable records; refusal to start is accepted only for a torn tail.',
